@@ -148,10 +148,11 @@ func (s *sim) casPart(i int) {
 	pid := int32(s.rng.IntN(3))
 	kind := s.rng.IntN(5)
 	owner := fmt.Sprintf("o%d-%d", i, s.rng.IntN(2))
-	var a acked
+	var a, a2 acked
 	err := cl.CAS(context.Background(), simnet.PartKey, func(in interface{}) (interface{}, bool, error) {
 		d := ring.GetOrCreatePartitionRingDesc(in)
 		now := time.Now()
+		a, a2 = acked{}, acked{}
 		switch kind {
 		case 0, 1:
 			// the content of a shared entry is a function of (entry, timestamp): two nodes writing the
@@ -174,10 +175,28 @@ func (s *sim) casPart(i int) {
 			}
 			a = acked{i, simnet.PartKey, "O" + owner, now.Unix(), true}
 		default:
-			if !d.HasPartition(pid) || !d.UpdatePartitionStateChangeLock(pid, (uint64(now.Unix())+uint64(pid))%2 == 0, now) {
+			if !d.HasPartition(pid) {
 				return nil, false, nil
 			}
-			a = acked{} // lock register: covered by agreement only
+			// the lock register, in half of the cases together with the state register in the same CAS
+			// ("deactivate and lock"): both halves are acknowledged
+			changedState := false
+			if (uint64(now.Unix())/2+uint64(pid))%2 == 0 {
+				want := ring.PartitionState(1 + (uint64(now.Unix())+uint64(pid)*7)%3)
+				changedState, _ = d.UpdatePartitionState(pid, want, now)
+			}
+			changedLock := d.UpdatePartitionStateChangeLock(pid, (uint64(now.Unix())+uint64(pid))%2 == 0, now)
+			switch {
+			case changedLock && changedState:
+				a = acked{i, simnet.PartKey, fmt.Sprintf("L%d", pid), now.Unix(), false}
+				a2 = acked{i, simnet.PartKey, fmt.Sprintf("P%d", pid), now.Unix(), false}
+			case changedLock:
+				a = acked{i, simnet.PartKey, fmt.Sprintf("L%d", pid), now.Unix(), false}
+			case changedState:
+				a = acked{i, simnet.PartKey, fmt.Sprintf("P%d", pid), now.Unix(), false}
+			default:
+				return nil, false, nil
+			}
 		}
 		return d, false, nil
 	})
@@ -185,6 +204,10 @@ func (s *sim) casPart(i int) {
 		s.acks = append(s.acks, a)
 		s.stats["cas_acked"]++
 		s.log("r%d cas partitions on n%d: %s ts=%d removed=%v", s.round, i, a.Entry, a.TS, a.Left)
+		if a2.Entry != "" {
+			s.acks = append(s.acks, a2)
+			s.log("r%d   (same CAS also changed %s)", s.round, a2.Entry)
+		}
 	}
 }
 
@@ -368,7 +391,7 @@ func runCluster(t *testing.T, run *vt.Run, c vt.CaseID, rng *rand.Rand, gossipOn
 			case r == 14 && !gossipOnly:
 				a, b := rng.IntN(n), rng.IntN(n)
 				if a != b && s.group[a] == s.group[b] {
-					net.PushPull(a, b)
+					net.PushPullJoin(a, b, rng.IntN(3) == 0) // a third as the exchange of a joining node
 					synctest.Wait()
 					s.stats["pushpull"]++
 					s.log("r%d push/pull n%d<->n%d", s.round, a, b)
@@ -643,6 +666,12 @@ func dominated(st map[string]interface{}, a acked) bool {
 		if d == nil {
 			return false
 		}
+		if strings.HasPrefix(a.Entry, "L") {
+			var pid int32
+			fmt.Sscanf(a.Entry, "L%d", &pid)
+			p, ok := d.Partitions[pid]
+			return ok && p.StateChangeLockedTimestamp >= a.TS
+		}
 		if strings.HasPrefix(a.Entry, "P") {
 			var pid int32
 			fmt.Sscanf(a.Entry, "P%d", &pid)
@@ -765,6 +794,57 @@ func truncations(t *testing.T, run *vt.Run, c vt.CaseID, rng *rand.Rand) {
 	})
 }
 
+// freshBurst: a node that does not hold the key yet receives, back to back, messages that change nothing (an empty
+// descriptor; a descriptor holding only a tombstone older than the retention) and then a real update, all through
+// NotifyMsg before the per-key worker has gone through them; after quiescence it must show the update.
+func freshBurst(t *testing.T, run *vt.Run, c vt.CaseID, rng *rand.Rand) {
+	synctest.Test(t, func(t *testing.T) {
+		cfg := simnet.DefaultConfig(30 * time.Second) // short retention: an old tombstone merges to nothing
+		net, err := simnet.New(2, cfg)
+		if err != nil {
+			run.Inconclusive(err.Error())
+			return
+		}
+		defer net.Stop()
+		enc := func(d *ring.Desc) []byte {
+			b, err := ring.GetCodec().Encode(d)
+			if err != nil {
+				return nil
+			}
+			kvp := memberlist.KeyValuePair{Key: simnet.RingKey, Codec: ring.GetCodec().CodecID(), Value: b}
+			m, _ := kvp.Marshal()
+			return m
+		}
+		now := time.Now().Unix()
+		empty := enc(ring.NewDesc())
+		old := ring.NewDesc()
+		old.Ingesters["gone"] = ring.InstanceDesc{Id: "gone", Addr: "gone", State: ring.LEFT, Timestamp: now - 3600}
+		oldTomb := enc(old)
+		real := ring.NewDesc()
+		real.Ingesters["ing-1"] = ring.InstanceDesc{Id: "ing-1", Addr: "ing-1", Zone: "z", State: ring.ACTIVE, Timestamp: now, RegisteredTimestamp: now, Tokens: []uint32{1, 2, 3}}
+		realMsg := enc(real)
+		if empty == nil || oldTomb == nil || realMsg == nil {
+			run.Inconclusive("could not encode the burst messages")
+			return
+		}
+		var burst [][]byte
+		for k := 1 + rng.IntN(4); k > 0; k-- {
+			burst = append(burst, [][]byte{empty, oldTomb}[rng.IntN(2)])
+		}
+		burst = append(burst, realMsg)
+		for _, m := range burst {
+			net.Deliver(1, m) // no waiting in between
+		}
+		synctest.Wait()
+		time.Sleep(time.Second)
+		synctest.Wait()
+		run.EvalH(vt.Mix(uint64(c.Idx), uint64(len(burst)), 91), true)
+		if v := net.Visible(1, simnet.RingKey); !strings.Contains(v, "ing-1{") {
+			run.Violation(c, "delivered-update-lost/fresh-key-burst", "a node that received an update for a key it did not hold yet, right behind messages that change nothing, does not show the update", map[string]any{"burst_length": len(burst), "visible": v})
+		}
+	})
+}
+
 func TestC06(t *testing.T) {
 	run := vt.NewRun("C06", "fault_enumeration")
 	run.SetRule("case = one seeded adversarial schedule on 2-6 gossip KV nodes detached from the transport (verif hook), inside a synctest bubble: acknowledged CAS on the instance ring and the partition ring on any node, gossip rounds where the adversary decides per (message, destination) deliver / drop (p in {0,.3,.9}) / duplicate / delay and reorder / block by partition, push/pull exchanges, partitions and heals, node restarts, watcher registration, malformed messages (only ones the public codec rejects), virtual time advances; then a bounded recovery (all delayed messages, 2(N-1) push/pull exchanges along a chain, 12 lossless full-fan-out gossip rounds) and the judgement: all nodes expose the same value per key, every acknowledged CAS is dominated by every node's stored state, every watcher (key and prefix watchers; nodes notify at once or every NotifyInterval in {0.5 s, 3 s}) has been called if the node's value changed after it registered and its last value is the node's final value, Invalidates(new, old) only when new contains old, malformed messages leave the stored state unchanged and do not crash. A second mode runs lossless full-fan-out gossip only (no push/pull) where divergence would reveal lost queue entries. non-trivial = more than one acknowledged CAS; distinct by journal; distinct fault-statistics vectors counted.")
@@ -777,6 +857,11 @@ func TestC06(t *testing.T) {
 	run.ForEachT(t, "gossip-only", vt.N(500, 15000), func(t *testing.T, c vt.CaseID, rng *rand.Rand, s *vt.Slot) {
 		s.Enter(c, "crash/gossip-only")
 		runCluster(t, run, c, rng, true, false)
+		s.Leave()
+	})
+	run.ForEachT(t, "fresh-burst", vt.N(300, 8000), func(t *testing.T, c vt.CaseID, rng *rand.Rand, s *vt.Slot) {
+		s.Enter(c, "crash/fresh-burst")
+		freshBurst(t, run, c, rng)
 		s.Leave()
 	})
 	run.ForEachT(t, "truncations", vt.N(40, 1500), func(t *testing.T, c vt.CaseID, rng *rand.Rand, s *vt.Slot) {
